@@ -65,16 +65,19 @@ def step(rig: PairRig, e: t.Dict[str, t.Any]) -> t.List[t.Tuple[str, str, str]]:
         if op != "cunbind" and obs["ret"] != call["id"]:
             diffs.append(("C09" if side == "c" else "C10", f"returned-id/{op}", f"{op} {call['k']} returned {obs['ret']}, expected {call['id']}"))
         if not raw.startswith(before):
-            diffs.append(("C12", f"pending-rewritten/{op}", "the pending octets changed although nothing was drained"))
+            for prop in ("C12", "C11"):
+                diffs.append((prop, f"pending-rewritten/{op}", "the pending octets changed although nothing was drained"))
             return diffs
         new = raw[len(before):]
         try:
             vals = sess.decode_all(new)
         except Exception as ex:  # noqa: BLE001
-            diffs.append(("C12", f"queued-undecodable/{op}", f"octets queued by {op} {call['k']} are not decodable: {type(ex).__name__}"))
+            for prop in ("C12", "C11"):
+                diffs.append((prop, f"queued-undecodable/{op}", f"octets queued by {op} {call['k']} are not decodable: {type(ex).__name__}"))
             return diffs
         if len(vals) != 1 or proj.kind_of(vals[0]) != call["k"] or (op != "cunbind" and vals[0].message_id != call["id"]):
-            diffs.append(("C09" if side == "c" else "C10", f"queued-message/{op}/{call['k']}", f"{op} {call['k']} id={call['id']} queued {[(proj.kind_of(v), v.message_id) for v in vals]}"))
+            for prop in ("C09" if side == "c" else "C10", "C11"):
+                diffs.append((prop, f"queued-message/{op}/{call['k']}", f"{op} {call['k']} id={call['id']} queued {[(proj.kind_of(v), v.message_id) for v in vals]} (the message the call sends is not what reaches the stream)"))
             return diffs
         (rig.cob if side == "c" else rig.sob).extend(rig.split(new))
         (rig.c_sent if side == "c" else rig.s_sent).append(proj.to_abstract(vals[0]))
@@ -82,11 +85,15 @@ def step(rig: PairRig, e: t.Dict[str, t.Any]) -> t.List[t.Tuple[str, str, str]]:
         side = op[0]
         segs, pipe = (rig.cob, rig.c2s) if side == "c" else (rig.sob, rig.s2c)
         k = call["id"]
+        everything = k == len(segs)
         want = [segs.popleft() for _ in range(k)]
-        amount = sum(len(x) for x in want)
+        amount: t.Optional[int] = sum(len(x) for x in want)
+        if everything and rnd.random() < 0.5:   # a writer loop typically asks for "up to N octets" or for everything
+            amount = None if rnd.random() < 0.4 else amount + rnd.choice((1, 7, 4096))
         got = (rig.c if side == "c" else rig.s).data_to_send(amount)
         if got != b"".join(want):
-            diffs.append(("C12", f"drain/{op}", f"data_to_send({amount}) returned {len(got)} octets that differ from the next {amount} queued octets"))
+            for prop in ("C12", "C11"):
+                diffs.append((prop, f"drain/{op}", f"data_to_send({amount}) returned {len(got)} octets that differ from the octets queued next"))
         pipe.extend(want)
     elif op in ("sdeliver", "cdeliver"):
         side = op[0]
